@@ -18,3 +18,6 @@ Proof. prove_setnnp_spec. Qed.
 
 Definition ksupported : kworld -> kworld * option bool := gen_supported kstate do_seccomp do_prctl.
 Definition ksupported_spec : supp_spec kstate do_seccomp ksupported := gen_supp_spec kstate do_seccomp do_prctl.
+
+Definition ksupported_g : kworld -> kworld * option bool := gen_supported kstate do_seccomp_g do_prctl_g.
+Definition ksupported_g_spec : supp_spec kstate do_seccomp_g ksupported_g := gen_supp_spec kstate do_seccomp_g do_prctl_g.
